@@ -99,7 +99,9 @@ impl World {
         for (bi, b) in BUCKETS.iter().enumerate() {
             let b = (*b).to_owned();
             self.learn(&b, |env| block_on(env.fs.create_bucket(mk_req(CreateBucketInput::builder().bucket(b.clone()).build().unwrap()))).expect("create bucket"));
-            for (oi, key) in ["obj1", "dir/obj2", "secret.txt"].iter().enumerate() {
+            // (the last key is 201 bytes long and present in every bucket: side files of long keys must stay per bucket)
+            let long_key = format!("m{}", "0123456789".repeat(20));
+            for (oi, key) in ["obj1", "dir/obj2", "secret.txt", long_key.as_str()].iter().enumerate() {
                 let marker = format!("MARK-{b}-{oi}");
                 let meta_marker = format!("MARK-{b}-meta{oi}");
                 self.markers.push((marker.clone(), b.clone()));
@@ -108,6 +110,15 @@ impl World {
                 let mut md = Metadata::default();
                 md.insert("note".into(), meta_marker);
                 let input = PutObjectInput::builder().bucket(b.clone()).key((*key).to_owned()).body(Some(blob(body.as_bytes()))).metadata(Some(md)).build().unwrap();
+                self.learn(&b, |env| block_on(env.fs.put_object(mk_req(input))).expect("put"));
+            }
+            {
+                // an object that *looks like* a bookkeeping record of the backend (JSON; the name ends in .json) - an
+                // upload id spelled as a path must not make the backend take it for one
+                let marker = format!("MARK-{b}-json");
+                self.markers.push((marker.clone(), b.clone()));
+                let body = if bi % 2 == 0 { format!("[\"{marker} payload\"]") } else { format!("{{\"access_key\":null,\"bucket\":\"{b}\",\"key\":\"x\",\"note\":\"{marker}\"}}") };
+                let input = PutObjectInput::builder().bucket(b.clone()).key("job.json".to_owned()).body(Some(blob(body.as_bytes()))).build().unwrap();
                 self.learn(&b, |env| block_on(env.fs.put_object(mk_req(input))).expect("put"));
             }
             if bi < 2 {
@@ -144,7 +155,11 @@ fn gen_evil_key_inner(c: &mut Case<'_>, w: &World, victim: &str) -> (String, &'s
     let root = w.env.root.display().to_string();
     let sandbox = w.env.sandbox.display().to_string();
     let bookkeeping: Vec<String> = w.owner.keys().filter(|p| p.parent() == Some(w.root_rel().as_path())).filter_map(|p| p.file_name().and_then(|n| n.to_str()).map(str::to_owned)).collect();
-    match c.t.below(12) {
+    match c.t.below(14) {
+        // a plain key that also exists in every other bucket (one of them long): whatever the backend derives from
+        // it - side file names - must stay per bucket
+        12 => (format!("m{}", "0123456789".repeat(20)), "same-long-key-in-other-buckets"),
+        13 => ("obj1".to_owned(), "same-key-in-other-buckets"),
         0 => (format!("../{victim}/obj1"), "dotdot-other-bucket"),
         1 => (format!("../{victim}/secret.txt"), "dotdot-other-bucket"),
         2 => (format!("dir/../../{victim}/dir/obj2"), "dotdot-other-bucket"),
@@ -179,6 +194,19 @@ fn gen_evil_key_inner(c: &mut Case<'_>, w: &World, victim: &str) -> (String, &'s
             }
             (s, "soup")
         }
+    }
+}
+
+/// an upload id spelled like a path: towards the outside, or towards an object of another bucket that looks like
+/// one of the backend's records once the backend appends its suffix (`job` + `.json`)
+fn path_like_upload_id(c: &mut Case<'_>, victim: &str) -> String {
+    match c.t.below(6) {
+        0 => "../../outside".to_owned(),
+        1 => "../../outside/x".to_owned(),
+        2 => format!("/../{victim}/job"),
+        3 => format!("x/../../{victim}/job"),
+        4 => format!("/../{victim}/obj1"),
+        _ => format!("/../../{}/{victim}/job", "root"),
     }
 }
 
@@ -354,7 +382,7 @@ fn run_op(c: &mut Case<'_>, w: &World) -> OpResult {
             let id = match c.t.below(4) {
                 0 => w.upload_ids.get(&victim).cloned().unwrap_or_default(),
                 1 => String::new(),
-                2 => "../../outside".to_owned(),
+                2 => path_like_upload_id(c, &victim),
                 _ => uuid_like(c),
             };
             (
@@ -367,7 +395,7 @@ fn run_op(c: &mut Case<'_>, w: &World) -> OpResult {
             // upload part into a foreign / malformed upload id
             let id = match c.t.below(3) {
                 0 if c.allow("upload-id-unbound:upload-part") => w.upload_ids.get(&victim).cloned().unwrap_or_default(),
-                1 => "../../outside/x".to_owned(),
+                1 => path_like_upload_id(c, &victim),
                 _ => uuid_like(c),
             };
             (
@@ -380,7 +408,7 @@ fn run_op(c: &mut Case<'_>, w: &World) -> OpResult {
             )
         }
         11 => {
-            let id = if c.t.bool() && c.allow("upload-id-unbound:abort-upload") { w.upload_ids.get(&victim).cloned().unwrap_or_default() } else { uuid_like(c) };
+            let id = if c.t.bool() && c.allow("upload-id-unbound:abort-upload") { w.upload_ids.get(&victim).cloned().unwrap_or_default() } else if c.t.bool() { path_like_upload_id(c, &victim) } else { uuid_like(c) };
             (
                 "abort-upload",
                 render(block_on(async { fsb.abort_multipart_upload(mk_req(AbortMultipartUploadInput::builder().bucket(a.clone()).key(key.clone()).upload_id(id).build().unwrap())).await.map(|r| format!("{:?}", r.output)) })),
